@@ -1,5 +1,6 @@
 """Tables re-extracted from the source on every run: predicate/cast acceptance sets, kind->tag, kind->Expr
 constructors, positions of casts / checks / constraints.  Shared by C01, C05, C07, C09."""
+import pathrules as P
 import re
 from facts import hir_walk, variant_of, pat_variants, callee_def, callee_id
 from absint import Interp, TRUE, FALSE, UNK
@@ -285,7 +286,7 @@ class Tables:
                         src = ctx.bind.get(r['p']['hid'])
                         if src and src[0] == 'let':
                             r = src[1]
-                    if r['k'] == 'call' and (callee_def(r) or '').endswith('get_tag'):
+                    if r['k'] == 'call' and P.name_is(callee_def(r), 'get_tag'):
                         node = r['args'][0]
                     org = ctx.origin(node) if node is not None else None
                     rows.append({'fn': q, 'pred': e['name'], 'pos': org, 'guard': self.gk(ctx.guards(anc)),
@@ -306,7 +307,7 @@ class Tables:
                     return None
             if x['k'] == 'mcall' and x['name'] == 'into':
                 x = x['recv']
-            if x['k'] == 'call' and (callee_def(x) or '').endswith('get_tag'):
+            if x['k'] == 'call' and P.name_is(callee_def(x), 'get_tag'):
                 return x['args'][0]
             return None
 
